@@ -58,6 +58,7 @@ type Scenario struct {
 	PaceUs     [2]int      `json:"reader_pace_us"`
 	PauseRead  [2]int      `json:"reader_pause_after"` // reader of direction d pauses after this many bytes (0 = never)
 	PauseMs    [2]int      `json:"reader_pause_ms"`
+	GrowRcvBuf [2]int      `json:"grow_rcvbuf,omitempty"` // halfway through its pause the reader of direction d sets its receive buffer to this size
 	Faults     [2]FaultCfg `json:"faults"`
 	Drops      []DropRule  `json:"drops"`
 	Delays     []DelayRule `json:"delays,omitempty"`
@@ -787,7 +788,13 @@ func Run(sc *Scenario, frameCheck func(dir int, f *wire.Frame) string) Result {
 			}
 			if !paused && sc.PauseRead[d] > 0 && off >= int64(sc.PauseRead[d]) {
 				paused = true
-				time.Sleep(time.Duration(sc.PauseMs[d]) * time.Millisecond)
+				if sc.GrowRcvBuf[d] > 0 {
+					time.Sleep(time.Duration(sc.PauseMs[d]) * time.Millisecond / 2)
+					x.e.SetSockOpt(tcpip.ReceiveBufferSizeOption(sc.GrowRcvBuf[d]))
+					time.Sleep(time.Duration(sc.PauseMs[d]) * time.Millisecond / 2)
+				} else {
+					time.Sleep(time.Duration(sc.PauseMs[d]) * time.Millisecond)
+				}
 			}
 		}
 	}
